@@ -3,6 +3,7 @@
 mod c15;
 mod c18;
 mod c35;
+mod c37;
 mod c40;
 mod c44;
 mod access;
@@ -54,6 +55,7 @@ fn main() {
         "C32" => gtchk::run_c32(&cli),
         "C33" => c33::run(&cli),
         "C35" => c35::run(&cli),
+        "C37" => c37::run(&cli),
         "C38" => lpcomp::run_c38(&cli),
         "C39" => lpcomp::run_c39(&cli),
         "C40" => c40::run(&cli),
